@@ -28,6 +28,8 @@ type Source struct {
 	// while a read or write is in progress
 	mu     sync.RWMutex
 	closed bool
+	// filterTime is the time the BPF filter was attached to the socket
+	filterTime time.Time
 }
 
 // Assert that AfPacketSource conforms to the packet.ReadWriter interface
@@ -64,7 +66,11 @@ func (s *Source) SetBPFFilter(bpfFilter string, maxPacketLength int) error {
 		}
 		bpfIns = append(bpfIns, rawIns)
 	}
-	return s.handle.SetBPF(bpfIns)
+	if err = s.handle.SetBPF(bpfIns); err != nil {
+		return err
+	}
+	s.filterTime = time.Now()
+	return nil
 }
 
 func (s *Source) Close() {
@@ -82,13 +88,20 @@ func (s *Source) ReadPacketData() ([]byte, *gopacket.CaptureInfo, error) {
 	if s.closed {
 		return nil, nil, io.EOF
 	}
-	// the packet is copied out of the ring buffer, Close unmaps it
-	data, ci, err := s.handle.ReadPacketData()
-	if err == afp.ErrTimeout {
-		// no packet within the poll timeout, the caller retries
-		err = syscall.EAGAIN
+	for {
+		// the packet is copied out of the ring buffer, Close unmaps it
+		data, ci, err := s.handle.ReadPacketData()
+		if err == afp.ErrTimeout {
+			// no packet within the poll timeout, the caller retries
+			err = syscall.EAGAIN
+		}
+		// the socket receives everything from the moment it is opened:
+		// packets captured before the filter was attached are not filtered
+		if err == nil && ci.Timestamp.Before(s.filterTime) {
+			continue
+		}
+		return data, &ci, err
 	}
-	return data, &ci, err
 }
 
 func (s *Source) WritePacketData(pkt []byte) error {
